@@ -338,6 +338,36 @@ def c07_closed(m, o):
             if np.abs(a2[::4] - a1).max() > 50 * tol * 101:
                 viol.append("odeint depends on the output grid: h=%g vs h=%g differ by %.3g at common times (tol %g)" % (
                     h, h / 4, np.abs(a2[::4] - a1).max(), tol))
+    # a coarse output grid over a long span (many internal steps between two output times) must agree with
+    # the exact solution and with a fine grid over the same span
+    for (t1, hcoarse, lam) in o.get("coarse", [(1200.0, 600.0, 0.002)]):
+        ts_c, a_c = decay(0.0, t1, hcoarse, lam, "solve_ivp")
+        exact = 100.0 * np.exp(-lam * np.asarray(ts_c))
+        checks += 1
+        if np.abs(a_c - exact).max() > 50 * 1.4e-4 * 101:
+            viol.append("odeint on a coarse output grid t=[0,%g] timestep=%g lam=%g: max error %.4g against the exact solution" % (
+                t1, hcoarse, lam, np.abs(a_c - exact).max()))
+        # S -> I -> R chain: coarse grid vs fine grid over the same span
+        def chain(h):
+            mm = CompartmentalModel([0.0, 2000.0], ["S", "I", "R"], ["I"], timestep=h)
+            mm.set_initial_population({"S": 1000.0})
+            mm.add_transition_flow("a", 0.004, "S", "I")
+            mm.add_transition_flow("b", 0.002, "I", "R")
+            mm.run(solver="solve_ivp", jit=False)
+            return np.asarray(mm.outputs)
+        coarse, fine = chain(1000.0), chain(250.0)
+        k1, k2 = 0.004, 0.002
+        tt = np.array([0.0, 1000.0, 2000.0])
+        exact_i = 1000.0 * k1 / (k2 - k1) * (np.exp(-k1 * tt) - np.exp(-k2 * tt))
+        checks += 2
+        if np.abs(coarse[:, 1] - exact_i).max() > 50 * 1.4e-4 * 1001:
+            viol.append("odeint on a coarse output grid (S->I->R, t=[0,2000], timestep=1000): I differs from the exact solution by %.4g" % np.abs(coarse[:, 1] - exact_i).max())
+        if np.abs(coarse - fine[::4]).max() > 50 * 1.4e-4 * 1001:
+            viol.append("odeint depends on the output grid (S->I->R, timestep 1000 vs 250): max difference %.4g at common times" % np.abs(coarse - fine[::4]).max())
+        ts_s, a_s = decay(0.0, 8.0, 4.0, 0.25, "solve_ivp", solver_args={"max_step": 0.01})
+        checks += 1
+        if np.abs(a_s - 100.0 * np.exp(-0.25 * np.asarray(ts_s))).max() > 50 * 1.4e-4 * 101:
+            viol.append("odeint with max_step=0.01 over t=[0,8] timestep=4: max error %.4g" % np.abs(a_s - 100.0 * np.exp(-0.25 * np.asarray(ts_s))).max())
     # orders of convergence on a logistic (SI) model
     def si(h, solver):
         mm = CompartmentalModel([0, 4], ["S", "I"], ["I"], timestep=h)
@@ -901,9 +931,45 @@ def c04(m, o):
     return {"checks": checks, "violations": viol[:10]}
 
 
-ORACLES = {"c01": c01, "c02": c02}
+def c18(m, runner, p, t, x):
+    """empty / marginally negative compartments have non-negative rates"""
+    r = runner.impl_dict["one_step"](p, t, x)
+    cr = np.asarray(r.comp_rates, dtype=float)
+    xv = np.asarray(x, dtype=float)
+    if not np.isfinite(cr).all():
+        return {"checks": 0, "violations": []}
+    scale = 1 + float(np.abs(np.asarray(r.flow_rates, dtype=float)).max()) if len(r.flow_rates) else 1.0
+    viol, checks = [], 0
+    for j in range(len(xv)):
+        if xv[j] <= 0:
+            checks += 1
+            if cr[j] < -1e-12 * scale:
+                viol.append("compartment %d (%s) holds %r but its rate of change is %r" % (j, m.compartments[j], xv[j], cr[j]))
+    return {"checks": checks, "violations": viol}
+
+
+def c18_traj(m, o):
+    """solved trajectories started from a boundary state stay non-negative up to the solver tolerance"""
+    from fractions import Fraction
+    p = {k: float(Fraction(v)) for k, v in (o.get("params") or {}).items()}
+    viol, checks = [], 0
+    # (fixed-step solvers overshoot legitimately when rate x step is large; only the error-controlled
+    # solver is held to its tolerance)
+    for solver, tol in (("solve_ivp", 1.4e-4 * 20),):
+        m.run(p, solver=solver, jit=False, rebuild=True)
+        out = np.asarray(m.outputs, dtype=float)
+        if not np.isfinite(out).all():
+            continue
+        checks += 1
+        mn = float(out.min())
+        if mn < -tol * (1 + float(np.abs(out).max())):
+            viol.append("%s: a compartment falls to %r" % (solver, mn))
+    return {"checks": checks, "violations": viol}
+
+
+ORACLES = {"c01": c01, "c02": c02, "c18": c18}
 MODEL_ORACLES = {"c02_traj": c02_traj, "c13": c13, "c12": c12, "c12_dates": c12_dates,
-                 "c07": c07, "c07_closed": c07_closed, "c16": c16, "c14": c14, "c08": c08, "c09": c09, "c10": c10, "c04": c04}
+                 "c07": c07, "c07_closed": c07_closed, "c16": c16, "c14": c14, "c08": c08, "c09": c09, "c10": c10, "c04": c04, "c18_traj": c18_traj}
 
 
 def run_oracle(m, o):
